@@ -23,14 +23,28 @@ class C23(Prop):
              "two-byte header, max >= 4, at most 21 NAL units per unit), Opus (rtpEncoderOpus over rtpsimpleaudio: one packet per "
              "Opus packet, timestamps = running sum of opus.PacketDuration2; the size bound holds iff every Opus packet fits), "
              "G.711 and LPCM (rtplpcm: sample-aligned splitting, packet i starts i*(max/sampleSize) samples later, precondition "
-             "0 < sampleSize <= max, otherwise division by zero). For the other 12 formats (AV1, VP8, VP9, MPEG-4 Video, MPEG-1 "
+             "0 < sampleSize <= max, otherwise division by zero); (c) the per-format state over the WHOLE LIFE of a Stream, i.e. over "
+             "any sequence of sub streams (one for an ordinary stream; offline sub stream / publishers replacing each other / "
+             "offline again for an always-available stream) and units, generic in the packetizer and for any values of the random "
+             "source: subStreamFormat.initialize creates the shared encoder and rtpTimeOffset exactly once - when there is none and "
+             "the publisher is not an RTP publisher or the stream is always-available or the remux is forced (H.264 "
+             "packetization-mode 0) - and otherwise touches neither the encoder (SSRC, sequence number) nor the offset; hence, "
+             "once an encoder exists, every later state has the SAME offset, every re-encoded unit of every later sub stream is "
+             "stamped with that one offset + uint32(PTS + ptsOffset), the packets of the whole history form one consecutive "
+             "run mod 2^16 with one SSRC (packetizers that never return an error: H.264, Opus, G.711, LPCM; per-unit chaining for "
+             "the others) and every packet ever sent for the format - generated or forwarded untouched - fits the maximum. "
+             "For the other 12 formats (AV1, VP8, VP9, MPEG-4 Video, MPEG-1 "
              "Video, M-JPEG, MPEG-4 Audio, LATM, MPEG-1 Audio, AC-3, KLV, FLAC) and for a format without encoder there is NO "
              "theorem: the check evaluates the boolean form of the property (size bound, consecutive sequence numbers, one SSRC, "
              "offset + PTS (+ per-packet audio increments), decode(encode) = delivered payload with the format's real rtpDecoder, "
              "oversize trigger, passthrough untouched) inside Coq on the packets the real code produced - differential only.",
         note="Trusted: Coq kernel+VM, the in-package driver and fixture, the hand-written models (tied by correspondence: each of "
              "the five models must reproduce every observed packet - sequence number, timestamp, marker, SSRC, payload - every "
-             "observed error/panic and every observed decoder answer). The gortsplib packetizers of the 12 other formats are "
+             "observed error/panic, every observed decoder answer and, after every sub stream initialisation, the observed "
+             "encoder SSRC / current sequence number / rtpTimeOffset / ptsOffset). The random SSRC / first sequence number / "
+             "offset and the wall-clock dependent ptsOffset of an always-available stream are inputs of the model (observed). "
+             "The boolean property keeps the per-format state of the EARLIER sub streams when a new sub stream is initialised "
+             "(it is not re-read from the implementation), so a state that does not persist fails on the next unit's packets. The gortsplib packetizers of the 12 other formats are "
              "library code outside the proof. Round-trip preconditions: H.264 NAL units non-empty, forbidden_zero_bit clear, type "
              "not 24..29, no start code inside, <= 50 NAL units / 8 MiB; H.265 NAL units with their two-byte header, type not "
              "48..50, no start code inside, <= 21 NAL units / 8 MiB (the forbidden_zero_bit survives); Opus packets and sample "
@@ -39,9 +53,12 @@ class C23(Prop):
              "divide by zero); the gortsplib AV1 encoder joins OBUs at a packet boundary. Expected audio timestamp increments of "
              "the non-modelled audio formats are computed by the driver from format constants.",
         technique="Coq proof (induction over the access unit / fragment loop / aggregation entries / sample loop / unit sequence, "
-                  "finite sweeps for the bit-level header facts, one generic glue development instantiated per packetizer) + "
+                  "finite sweeps for the bit-level header facts, one generic glue development instantiated per packetizer, history "
+                  "theorems by induction over the event list of a Stream's life with the invariant 'encoder present, offset "
+                  "unchanged') + "
                   "correspondence via vm_compute for 5 formats; differential testing for 12 formats")
-    rule = ("scenarios = one real streamFormat/subStreamFormat + maximum 16..1460 (65% 16..64 so that every boundary is hit with "
+    rule = ("scenarios = one real streamFormat + the sequence of real subStreamFormats the Stream goes through (each with the real "
+            "initialize + initialize2) + maximum 16..1460 (65% 16..64 so that every boundary is hit with "
             "short payloads; 255..262; 1200..1460) + 1-4 units pushed through the real writeUnitInner, 60% as payloads (encoder "
             "created by initialize, random SSRC/sequence number/offset read back), 40% as RTP packets of a source encoder with "
             "a larger maximum (passthrough first, then the encoder is created on the first oversized packet; sequence numbers "
@@ -52,14 +69,25 @@ class C23(Prop):
             "known finding), 10% G.711 (1-3 channels) / LPCM (8/16/24 bit x 1..8 channels, ragged ends, sample larger than the "
             "maximum), 40% round-robin over all 18 formats; directed scenarios spread over the run (witnesses of the findings, "
             "boundary ladders of H.264 / H.265 / LPCM at several maxima) and one configuration probe (real conf.Load on "
-            "udpMaxPayloadSize -5..5000). Non-trivial = at least one unit was re-encoded")
+            "udpMaxPayloadSize -5..5000). Stream modes: 70% ordinary (one sub stream), 25% always-available (class "
+            "always-available-Nsubs: the offline-like first sub stream then 1-3 further sub streams, each an RTP or a payload "
+            "publisher with its own format object - H.264 / H.265 publishers announcing parameter sets that initialize2 writes as a "
+            "unit of its own -, 1-2 units each, ptsOffset from the real initialize2, the reader's decoder kept across sub streams), "
+            "5% forced remux (H.264 packetization-mode 0, RTP publisher with one NAL unit per packet or payload publisher). On "
+            "every run 8 REAL always-available Streams (class real-stream/<codec>/offline+<phases>; Stream.Initialize with "
+            "AlwaysAvailableTracks H264 x2 (maximum 1440 and a small one), H265, Opus, MPEG4Audio, G711, LPCM, AV1 or VP9; the real "
+            "offline sub stream goroutines, real SubStream.Initialize / WriteUnit / StartOfflineSubStream; phases P = payload "
+            "publisher, R = RTP publisher, O = offline again; observed by a real Reader from AddReader on, the first observed "
+            "packet fixes SSRC / sequence number / offset for the rest of the history). Non-trivial = at least one unit was re-encoded")
     trusted_base = ["Coq 8.16.1 kernel + VM (vm_compute for cases; primitive 63-bit integers only to ship byte strings compactly)",
-                    "in-package Go driver zz_verif_c23*_test.go + fixture zz_verif_streamfx_test.go (package stream)",
-                    "models Model/C23_RtpGlue.v, C23_RtpGlueInst.v, C23_RtpH264.v, C23_RtpH265.v, C23_RtpAudio.v hand-written, tied by "
+                    "in-package Go driver zz_verif_c23*_test.go (incl. zz_verif_c23stream_test.go: real Streams) + fixture "
+                    "zz_verif_streamfx_test.go (package stream); encoder state read by reflection (SSRC, sequenceNumber)",
+                    "models Model/C23_RtpGlue.v, C23_RtpGlueInst.v, C23_RtpLife.v, C23_RtpH264.v, C23_RtpH265.v, C23_RtpAudio.v hand-written, tied by "
                     "correspondence",
                     "oracles shipped by the driver: delivered payload (C22's territory), result of the incoming rtpDecoder, "
                     "availability of an encoder for the format and maximum (observed on the real newRTPEncoder), audio timestamp "
-                    "increments of the non-modelled formats",
+                    "increments of the non-modelled formats, the random SSRC / first sequence number / rtpTimeOffset of a new "
+                    "encoder, newRTPDecoder's result, ptsOffset after initialize2 (wall clock)",
                     "gortsplib packetizers/depacketizers of the 12 formats not modelled (differential only)"]
     assumptions = ["PayloadMaxSize >= 3 (H.264) / >= 4 (H.265) / >= sample size (G.711, LPCM; enforced by newRTPEncoder since fix "
                    "6728a85) and < 65536 (16-bit size fields); the configuration caps udpMaxPayloadSize at 1472 but has no lower "
